@@ -134,6 +134,7 @@ class Bitlist(BitsView):
         return super().__new__(cls, **kwargs)
 
     def __class_getitem__(cls, limit) -> Type["Bitlist"]:
+        limit = int(limit)  # a uint-typed parameter must not leak its type into the size arithmetic
         class SpecialBitlistView(Bitlist):
             @classmethod
             def limit(cls) -> int:
@@ -362,6 +363,7 @@ class Bitvector(BitsView, FixedByteLengthViewHelper):
         return super().__new__(cls, **kwargs)
 
     def __class_getitem__(cls, length) -> Type["Bitvector"]:
+        length = int(length)  # a uint-typed parameter must not leak its type into the size arithmetic
         if length <= 0:
             raise Exception(f"invalid bitvector length: {length}")
 
